@@ -386,6 +386,28 @@ pub fn run(tier: Tier) -> i32 {
                 }
             }
         }
+        // comment lines of every shape: the marker is the first `//` of the line, everything after
+        // it (trimmed) is content, further slashes included
+        {
+            let shapes = ["// n", "//n", "///three", "//// four", "// // nested", "//////////", "// a // b", "//\t// x", "  //// indented four", "//x//", "/// ", "////", "// /", "//  //  ", "///// five /////"];
+            let content = |l: &str| l.trim().strip_prefix("//").unwrap_or("").trim().to_string();
+            let mut seqs: Vec<Vec<&str>> = Vec::new();
+            for a in shapes {
+                seqs.push(vec![a]);
+                for b in shapes {
+                    seqs.push(vec![a, b]);
+                    seqs.push(vec![a, b, "// third"]);
+                }
+            }
+            for seq in &seqs {
+                let comments: Vec<String> = seq.iter().map(|l| content(l)).collect();
+                let cref: Vec<&str> = comments.iter().map(|c| c.as_str()).collect();
+                for text in [format!("{}\nx", seq.join("\n")), format!("{}\r\n@k: i1;\r\nx\r\n", seq.join("\r\n")), format!("@name: \"N\";\n{}\nx", seq.join("\n"))] {
+                    check_raw_rule(&g, &text, &cref, "comment-shape", &mut acc0);
+                    acc0.count("comment_shape_texts", 1);
+                }
+            }
+        }
         // repeated keys whose constants are equal under == but written differently: the last written
         // constant is kept, with its scale / sign / element spelling
         {
